@@ -400,6 +400,19 @@ def r12_recur_rebinds_exactly_the_arguments_written(ctx):
     C08.r5_recur_point_carries_the_flag_of_its_own_arity(_As(ctx, "C01.R12"))
 
 
+@rule("C01.R13", floor=8)
+def r13_operands_hold_the_values_they_had_when_evaluated(ctx):
+    """The value a form denotes is computed from the values its operands had when each was evaluated,
+    in order.  An operand that is a bare name -- a local, or the module global a direct-linked Var of
+    the current namespace compiles to -- is a read: when a later operand carries statements (an if,
+    a let, a do with a def in it), the read has to be taken before those statements run, or
+    (vector a (do (def a 2) a)) yields [2 2].  This is C02.R1's check of the chaining combinator
+    (evaluated on every sibling list of length 2 and 3 over constants, calls and bare names), decided
+    here as well because a late read makes the program compute a value its source does not denote."""
+    from . import C02
+    C02.r1_sequencing_sound_combination(_As(ctx, "C01.R13"))
+
+
 @rule("C01.R11", floor=1)
 def r11_every_top_level_form_yields_a_value(ctx):
     """compile_and_exec_form unrolls a top-level `do` into its forms and returns the value of the last
